@@ -91,6 +91,17 @@ Definition lx_zero : jext := mk_ext (mk_hdr [0; 2; 2] None lx_aff false false) [
 Definition lx_stale : jext :=
   mk_ext (mk_hdr [2; 2; 3] (Some 2) lx_aff true false) [(kt, (TSamples, [JInt 1]))].
 
+(** a (2,2,2,1,2) extension that still has 'time' dictionaries, with a key in ('time','samples') (multiplicity 2):
+    storable, positive, nondegenerate, not tight *)
+Definition lx_untight : jext :=
+  mk_ext (mk_hdr [2; 2; 2; 1; 2] (Some 2) lx_aff true true) [(kt, (TSamples, [JInt 1; JInt 2]))].
+(** the same without the 'time' dictionaries: tight, positive, nondegenerate; the entry has nowhere to go *)
+Definition lx_unstorable : jext :=
+  mk_ext (mk_hdr [2; 2; 2; 1; 2] (Some 2) lx_aff false true) [(kt, (TSamples, [JInt 1; JInt 2]))].
+
+(** a reorientation transform (voxel order with a flipped first and swapped second / third axes) *)
+Definition lx_reo : option (list (list Q)) := Some [[-1; 0; 0; 1]; [0; 0; 1; 0]; [0; 1; 0; 0]; [0; 0; 0; 1]]%Q.
+
 Lemma not_valid_b (e : jext) : validb e = false -> ~ valid e.
 Proof. intros H Hv. apply valid_validb in Hv. congruence. Qed.
 
